@@ -322,7 +322,55 @@ def _run_leak(ctx, case) -> F.Outcome:
     return out
 
 
+def _run_shared(ctx, case) -> F.Outcome:
+    """Several patterns map to the SAME template file: the variables still come from the
+    first pattern that matches."""
+    from zorg.service.templates import init_from_template
+
+    _, pmap, ti = case
+    target = TARGETS[ti]
+    H.freeze(DAY)
+    out = F.Outcome()
+    zd = _setup([], target, False)
+    try:
+        err = None
+        try:
+            init_from_template(zd, {re.compile(PATTERNS[pi]): Path("tx.zot") for pi in pmap}, Path(target))
+        except Exception as e:  # noqa: BLE001
+            err = f"{type(e).__name__}: {e}"
+        rel = _resolved(target)
+        first = next((pi for pi in pmap if re.compile(PATTERNS[pi]).match(rel)), None)
+        path = zd / rel
+        got = path.read_text() if path.exists() else None
+        problem = None
+        if first is None:
+            if got is not None:
+                problem = ("something-created-without-a-matching-template", {"file": got})
+        else:
+            m = re.compile(PATTERNS[first]).match(rel)
+            vars_ = {k: v for k, v in m.groupdict().items() if v is not None}
+            try:
+                want = model_render("x", vars_)
+            except Exception:  # noqa: BLE001
+                want = None
+            if want is not None and (err or got != want):
+                problem = ("content-differs-from-first-matching-template:patterns-share-one-template",
+                           {"expected": want, "observed": got, "error": err})
+        out.obs = H.digest([got, err])
+        out.nontrivial = H.digest(case)
+        if problem:
+            out.ok = False
+            out.sig = problem[0]
+            out.detail = {"patterns_in_order": [PATTERNS[pi] for pi in pmap], "all_map_to": "tx.zot", "target": target,
+                          "problem": problem[1]}
+    finally:
+        Z.drop(zd)
+    return out
+
+
 def _run_case(ctx, case) -> F.Outcome:
+    if case[0] == "shared":
+        return _run_shared(ctx, case)
     if case[0] == "leak":
         return _run_leak(ctx, case)
     if case[0] == "two":
@@ -441,6 +489,10 @@ def _cases(ctx):
                 for overwrite in (False, True):
                     explicit = (ti + len(pmap)) % 2 == 0
                     cases.append(["cli", pmap, ti, exists, overwrite, explicit, (ti + overwrite + len(pmap)) % 3])
+    # overlapping patterns that share one template file
+    for pm in it.permutations(range(len(PATTERNS)), 2):
+        for ti in (0, 1, 2, 5):
+            cases.append(["shared", list(pm), ti])
     # a variable captured for one page must not reach the next page initialised in the process
     for mode in ("fn", "fn-dict", "edit"):
         for first_ti in (2, 1):  # work_log.zo captures name, 20240304.zo captures date
@@ -459,6 +511,8 @@ def _cases(ctx):
 
 
 def _sample(case):
+    if case[0] == "shared":
+        return {"patterns_in_order_all_mapping_to_one_template": [PATTERNS[pi] for pi in case[1]], "target": TARGETS[case[2]]}
     if case[0] == "leak":
         return {"two_initialisations_in_one_process": [TARGETS[case[2]], "notes.zo"], "via": case[1]}
     if case[0] in ("edit", "open"):
